@@ -179,7 +179,8 @@ fn sdes_sweep1(i: u64) -> BuildCase {
     }];
     if follow > 0 {
         let ssrc = [0xaabb_ccddu32, 0x00bb_ccdd, 0x0000_ccdd, 0x0000_00dd, 0x0000_0000][(follow - 1) as usize];
-        chunks.push(ChunkSpec { ssrc, items: if i % 2 == 0 { vec![] } else { vec![ItemSpec { ty: 2, prefix: vec![], value: "z".into() }] } });
+        // the follower has an item or not: a dimension of its own
+        chunks.push(ChunkSpec { ssrc, items: if (i / 5184) % 2 == 0 { vec![] } else { vec![ItemSpec { ty: 2, prefix: vec![], value: "z".into() }] } });
     }
     plain(PacketSpec::Sdes(SdesSpec { chunks, padding }))
 }
@@ -256,7 +257,7 @@ pub fn c03(tier: Tier) -> Check {
         assumptions: vec![],
         legs: vec![
             Box::new(RandomLeg { name: "random-sdes", cases: tier.pick(320_000, 4_000_000), make: Box::new(|| case_of(gen::sdes_spec(false).prop_map(PacketSpec::Sdes).boxed())), oracle: c03_oracle }),
-            Box::new(SweepLeg { name: "two-items-x-following-ssrc-x-padding", n: 12 * 12 * 6 * 3 * 2, at: Box::new(sdes_sweep1), oracle: c03_oracle, exhaustive: true }),
+            Box::new(SweepLeg { name: "two-items-x-following-ssrc-x-padding", n: 12 * 12 * 6 * 3 * 2 * 2, at: Box::new(sdes_sweep1), oracle: c03_oracle, exhaustive: true }),
             Box::new(ListLeg { name: "large-packets", cases: large_sdes_cases(), oracle: c03_oracle }),
             Box::new(SweepLeg { name: "single-item-every-length", n: 2 * (256 + 255 + 255), at: Box::new(sdes_sweep2), oracle: c03_oracle, exhaustive: true }),
         ],
@@ -379,6 +380,13 @@ pub(crate) fn c05_oracle(c: &BuildCase, st: &mut Stats) -> Verdict {
         _ => return Ok(()),
     };
     st.label_if(c.how.fb_owned, "how:builder_owned");
+    if matches!(s.fci, FciSpec::Sli(_)) {
+        st.label(match sli_view() {
+            SliView::Named => "SLI entries read by field name from the derived Debug",
+            SliView::Fields(_) => "SLI entries read through a calibrated Debug layout",
+            SliView::Opaque => "SLI entries compared through an opaque Debug text",
+        });
+    }
     let has_entries = match &s.fci {
         FciSpec::Nack(v) => !v.is_empty(),
         FciSpec::Pli => false,
